@@ -542,6 +542,55 @@ fn main() {
                 r.run_case(&Case { cfg, hr_ascii, nr_ascii, hay, needle });
             }
         }
+        "edge" => {
+            // whitespace at the edges: a core word, the needle is the core with whitespace at neither / either / both ends, the
+            // haystack is the core (sometimes in another case, sometimes damaged) wrapped in 0-2 whitespace characters per side
+            let count: usize = args[2].parse().unwrap();
+            let shard: u64 = args.get(3).map(|s| s.parse().unwrap()).unwrap_or(0);
+            r.rng = Rng::new(seed.wrapping_mul(15485863).wrapping_add(shard) ^ 0x6564);
+            let ws_ascii: &[char] = &[' ', '\t', '\n', ' '];
+            let ws_uni: &[char] = &[' ', '\u{3000}', '\u{a0}', '\t', '\u{2003}'];
+            for _ in 0..count {
+                let cfg = r.rng.below(4) as u32 | ((r.rng.below(3) as u32) << 3);
+                let config = config_of(cfg);
+                let uni = r.rng.chance(1, 3);
+                let ws = if uni { ws_uni } else { ws_ascii };
+                let alpha: &[char] = if uni { &['a', 'B', 'é', 'ô', '-', '1', ' '] } else { &['a', 'B', 'c', '-', '1', '/', ' '] };
+                let cl = 1 + r.rng.below(4) as usize;
+                let mut core: Vec<char> = (0..cl).map(|_| *r.rng.pick(alpha)).collect();
+                // the core itself has no whitespace at its ends
+                if core[0] == ' ' { core[0] = 'a'; }
+                if core[cl - 1] == ' ' { core[cl - 1] = 'c'; }
+                let nl = [0usize, 0, 1, 1, 2][r.rng.below(5) as usize];
+                let nt = [0usize, 0, 1, 1, 2][r.rng.below(5) as usize];
+                let mut raw_needle: Vec<char> = (0..nl).map(|_| *r.rng.pick(ws)).collect();
+                raw_needle.extend(core.iter());
+                raw_needle.extend((0..nt).map(|_| *r.rng.pick(ws)));
+                let hl = if r.rng.chance(1, 2) { nl } else { r.rng.below(3) as usize };
+                let ht = if r.rng.chance(1, 2) { nt } else { r.rng.below(3) as usize };
+                let mut hay: Vec<char> = Vec::new();
+                // mostly the needle's own whitespace (so that it can match), sometimes other whitespace
+                for k in 0..hl { hay.push(if k < nl && r.rng.chance(3, 4) { raw_needle[nl - 1 - k.min(nl - 1)] } else { *r.rng.pick(ws) }); }
+                hay.reverse();
+                let mut mid = core.clone();
+                match r.rng.below(8) {
+                    0 => { let i = r.rng.below(cl as u64) as usize; mid[i] = 'x'; }
+                    1 => mid.push('x'),
+                    2 => mid.insert(0, 'x'),
+                    3 => mid = mid.iter().map(|c| c.to_uppercase().next().unwrap()).collect(),
+                    _ => {}
+                }
+                hay.extend(mid.iter());
+                for k in 0..ht { hay.push(if k < nt && r.rng.chance(3, 4) { raw_needle[nl + cl + k] } else { *r.rng.pick(ws) }); }
+                if r.rng.chance(1, 6) { hay.extend((0..1 + r.rng.below(2)).map(|_| ' ')); }
+                let hay_is_ascii = hay.iter().all(|c| c.is_ascii());
+                let hr_ascii = hay_is_ascii && r.rng.chance(3, 4);
+                let needle: Vec<char> = raw_needle.iter().map(|&c| norm_any(c, hay_is_ascii && c.is_ascii(), &config)).collect();
+                let needle_is_ascii = needle.iter().all(|c| c.is_ascii());
+                let nr_ascii = needle_is_ascii && r.rng.chance(3, 4);
+                r.run_case(&Case { cfg, hr_ascii, nr_ascii, hay, needle });
+            }
+        }
         "exh" => {
             let maxh: usize = args[2].parse().unwrap();
             let maxn: usize = args[3].parse().unwrap();
